@@ -285,6 +285,11 @@ C18_AuditedSomething == [][IsStep /\ ev.op = "A" /\ ev.err = "" => \E w \in S(ev
 M_Values ==
   \A r \in R : LET o == Obs[r] IN
     S(o.rawheads) \subseteq S(o.ents) => o.values = ValuesOf(UU, Fn, S(o.ents), o.rawheads)
+\* ToString: newest first, each line indented by the length of its first-child chain
+M_ToString ==
+  \A r \in R : LET o == Obs[r] IN
+    /\ o.strids = RevSeq(o.values)
+    /\ \A i \in DOMAIN o.strids : o.strdepth[i] = ChildChainLen(UU, o.strids[i], o.values)
 M_Heads ==
   \A r \in R : LET o == Obs[r] IN o.heads = SortIds(UU, Fn, o.rawheads, TRUE) /\ o.jsonheads = o.heads
                                   /\ o.snapheads = o.rawheads
